@@ -28,6 +28,7 @@ import (
 	"sort"
 	"strings"
 	"sync"
+	"sync/atomic"
 	"testing"
 	"time"
 
@@ -106,6 +107,23 @@ func promURI() string {
 		// /partial/<mask>/...: the same API, but query and query_range answer 504 when the
 		// expression hashes into the 4-bit mask (a main server that is partially unavailable)
 		promSrv = httptest.NewServer(http.HandlerFunc(func(w http.ResponseWriter, r *http.Request) {
+			if rest, ok := strings.CutPrefix(r.URL.Path, "/fast/"); ok {
+				// /fast/<case>/...: answers every instant query at once with one series and
+				// records its own service time per request (queueing layer)
+				start := time.Now()
+				id, path, _ := strings.Cut(rest, "/")
+				r.URL.Path = "/" + path
+				if strings.HasSuffix(path, "api/v1/query") {
+					w.Header().Set("Content-Type", "application/json")
+					_, _ = w.Write([]byte(`{"status":"success","data":{"resultType":"vector","result":[{"metric":{},"value":[1700000000,"1"]}]}}`))
+				} else {
+					mux.ServeHTTP(w, r)
+				}
+				if v, ok := fastStats.Load(id); ok {
+					v.(*serviceStats).add(time.Since(start))
+				}
+				return
+			}
 			if rest, ok := strings.CutPrefix(r.URL.Path, "/partial/"); ok {
 				maskStr, path, _ := strings.Cut(rest, "/")
 				mask := 0
@@ -128,6 +146,27 @@ func promURI() string {
 	})
 	return promSrv.URL
 }
+
+// serviceStats is what the /fast/ fake observed for one case.
+type serviceStats struct {
+	mu       sync.Mutex
+	requests int
+	slowest  time.Duration
+}
+
+func (s *serviceStats) add(d time.Duration) {
+	s.mu.Lock()
+	s.requests++
+	if d > s.slowest {
+		s.slowest = d
+	}
+	s.mu.Unlock()
+}
+
+var (
+	fastStats sync.Map // case id -> *serviceStats
+	fastSeq   atomic.Int64
+)
 
 // ---------------------------------------------------------------------------
 // layer 1: in-process
@@ -923,6 +962,105 @@ func driveBinary(t *testing.T, layer string, binEnv string, race bool) {
 func TestPropWorkers(t *testing.T) { driveBinary(t, "workers", "VERIF_PINT_BIN", false) }
 func TestPropRace(t *testing.T)    { driveBinary(t, "race", "VERIF_PINT_RACE_BIN", true) }
 
+// ---------------------------------------------------------------------------
+// queueing layer: a healthy, fast server behind a low rateLimit and a short timeout.
+// Queries wait in pint's own queue / rate limiter for longer than the timeout when
+// --workers is high; waiting there must not turn into reported outages.
+
+const caseIDPlaceholder = "{{CASE_ID}}"
+
+const healthyBound = 300 * time.Millisecond
+
+var errStalled = errors.New("server or machine not demonstrably fast")
+
+func genQueueCase(t *rapid.T) Case {
+	n := rapid.IntRange(48, 64).Draw(t, "rules")
+	rate := rapid.IntRange(7, 10).Draw(t, "rateLimit")
+	var b strings.Builder
+	b.WriteString("groups:\n- name: g\n  rules:\n")
+	for i := 0; i < n; i++ {
+		fmt.Fprintf(&b, "  - record: job:metric_%02d:sum\n    expr: sum(metric_%02d) by(job)\n", i, i)
+	}
+	cfg := fmt.Sprintf("prometheus \"prom\" {\n  uri = \"%s/fast/%s\"\n  timeout = \"2s\"\n  rateLimit = %d\n  required = true\n}\nchecks {\n  enabled = [\"promql/series\"]\n}\n",
+		c05.PromURIPlaceholder, caseIDPlaceholder, rate)
+	return Case{Layer: "queue", Input: c05.Input{Files: []c05.FileSpec{{Name: "rules.yml", Content: b.String()}}, Config: cfg, Tags: []string{"queue"}},
+		ArgStyle: "files", MinSev: "info", Settings: []Setting{{1, 16}, {8, 16}, {64, 16}}}
+}
+
+// checkQueue runs the case; a difference between the runs is a violation only when the
+// fake answered every request within healthyBound and this process (a stand-in for the
+// machine) never stalled for longer than that - otherwise errStalled (inconclusive).
+func checkQueue(c Case, bin string) (st binStats, requests int, err error) {
+	id := fmt.Sprintf("q%d", fastSeq.Add(1))
+	stats := &serviceStats{}
+	fastStats.Store(id, stats)
+	defer fastStats.Delete(id)
+	c.Input.Config = strings.ReplaceAll(c.Input.Config, caseIDPlaceholder, id)
+	// heartbeat: the longest scheduling gap seen by a 10 ms ticker while the case runs
+	stop := make(chan struct{})
+	gapc := make(chan time.Duration, 1)
+	go func() {
+		var worst time.Duration
+		last := time.Now()
+		for {
+			select {
+			case <-stop:
+				gapc <- worst
+				return
+			case <-time.After(10 * time.Millisecond):
+				now := time.Now()
+				if g := now.Sub(last) - 10*time.Millisecond; g > worst {
+					worst = g
+				}
+				last = now
+			}
+		}
+	}()
+	st, err = checkBinary(c, bin, false)
+	close(stop)
+	gap := <-gapc
+	stats.mu.Lock()
+	requests, slowest := stats.requests, stats.slowest
+	stats.mu.Unlock()
+	if err != nil && !errors.Is(err, errInfra) && (slowest > healthyBound || gap > healthyBound) {
+		return st, requests, fmt.Errorf("%w (slowest answer %v, longest stall of the harness %v): %v", errStalled, slowest, gap, err)
+	}
+	if err != nil && !errors.Is(err, errInfra) {
+		err = fmt.Errorf("the fake Prometheus answered all %d requests within %v (slowest %v, harness never stalled longer than %v), rateLimit/timeout as configured, yet: %w", requests, healthyBound, slowest, gap, err)
+	}
+	return st, requests, err
+}
+
+func TestPropQueueing(t *testing.T) {
+	bin := os.Getenv("VERIF_PINT_BIN")
+	if bin == "" {
+		t.Fatalf("VERIF_PINT_BIN is not set (run through /verif/check)")
+	}
+	rec := vstat.New(t, prop)
+	rapid.Check(t, func(rt *rapid.T) {
+		c := genQueueCase(rt)
+		st, requests, err := checkQueue(c, bin)
+		if errors.Is(err, errInfra) {
+			t.Fatalf("inconclusive: %v", err)
+		}
+		if errors.Is(err, errStalled) {
+			rec.Count("queueing_cases_inconclusive_server_or_machine_slow", 1)
+			rec.Case("queue:inconclusive", false, "", nil)
+			return
+		}
+		rec.Count("queueing_requests_served", int64(requests))
+		for i := 0; i < max(1, st.runs); i++ {
+			rec.Case("queue:completed", st.completed && requests > 0, c.Input.Key(), func() any {
+				return map[string]any{"layer": "queue", "settings": c.Settings, "requests_served": requests, "config": c.Input.Config}
+			})
+		}
+		if err != nil {
+			rec.Fail(c, err)
+			rt.Fatalf("%v\n--- config ---\n%s", err, c.Input.Config)
+		}
+	})
+}
+
 func TestReplay(t *testing.T) {
 	p := vstat.ReplayPath()
 	if p == "" {
@@ -940,6 +1078,13 @@ func TestReplay(t *testing.T) {
 		// scheduling-dependent failures do not reproduce on every run: repeat
 		for i := 0; i < vstat.Scale(20, 100) && err == nil; i++ {
 			_, err = checkBinary(c, os.Getenv("VERIF_PINT_BIN"), false)
+		}
+	case "queue":
+		for i := 0; i < 3 && err == nil; i++ {
+			_, _, err = checkQueue(c, os.Getenv("VERIF_PINT_BIN"))
+			if errors.Is(err, errStalled) {
+				t.Skipf("inconclusive: %v", err)
+			}
 		}
 	case "race":
 		for i := 0; i < vstat.Scale(10, 50) && err == nil; i++ {
